@@ -1129,7 +1129,7 @@ package stackage
 //@ let c0 := G_calls_len
 //@ ensures[C14:Unmarshal.policy] r != nil && um != nil ==> slice == dyn_Slice_0(um, nil, c0) && err == dyn_Val_1(um, nil, c0)
 //@ ensures[C17:Unmarshal.nil] r == nil ==> len(slice) == 0 && err == nil
-//@ noframe
+//@ modifies fresh, G_calls_len, G_calls_fn, G_calls_arg
 
 //@ func (Stack).IsEqual
 //@ tags C14
@@ -1137,10 +1137,10 @@ package stackage
 //@ requires r == nil || wf(r)
 //@ let eq := F_nodeConfig_eqf[cfgOf(r)]
 //@ let c0 := G_calls_len
-//@ ensures[C14:IsEqual.policy] r != nil && isStackLike(o) && eq != nil ==> result == dyn_Val_0(eq, v_Stack(r), c0)
-//@ ensures[C14:IsEqual.bad] r != nil && !isStackLike(o) ==> result != nil
+//@ ensures[C14:IsEqual.policy] r != nil && isStackLike(o) && stackOf(o) != nil && eq != nil ==> result == dyn_Val_0(eq, v_Stack(r), c0)
+//@ ensures[C14:IsEqual.bad] r != nil && (!isStackLike(o) || stackOf(o) == nil) ==> result != nil
 //@ ensures[C17:IsEqual.nil] r == nil ==> result != nil
-//@ noframe
+//@ modifies fresh, G_calls_len, G_calls_fn, G_calls_arg
 
 //@ func (*stack).string
 //@ tags C14
@@ -1155,7 +1155,10 @@ package stackage
 //@ ensures[C14:string.basic] r != nil && F_nodeConfig_typ[c] == 0x06 ==> assembled == ""
 //@ ensures[C14:string.rejected] r != nil && rejected ==> assembled == ""
 //@ ensures[C14:string.policy] r != nil && F_nodeConfig_typ[c] != 0x06 && !rejected && rp != nil ==> assembled == dyn_Str_0(rp, v_stackp(r), ite(vp != nil, c0 + 1, c0))
-//@ noframe
+//@ modifies fresh, G_calls_len, G_calls_fn, G_calls_arg
+//@ loop 1 invariant arr(str) == 0 || fresh(arr(str))
+//@ loop 1 invariant 1 <= i && hdr(r) == old(hdr(r))
+//@ loop 1 invariant forall a :: 0 <= a && a < old(alloc) ==> Mem_Str[a] == old(Mem_Str[a])
 
 //@ func (Condition).Evaluate
 //@ tags C14
@@ -1171,19 +1174,29 @@ package stackage
 
 //@ func (*stack).isEqual
 //@ note comparison internals are decided under C05; callers outside C05 learn nothing from this call
-//@ noframe
+//@ tags C11,C09
+//@ requires wf(r) && wf(o)
+//@ modifies fresh, G_calls_len, G_calls_fn, G_calls_arg
 
 //@ func (stack).unmarshalDefault
 //@ note decided under C04; callers outside C04 learn nothing from this call
-//@ noframe
+//@ tags C11,C09
+//@ requires wfs(r)
+//@ modifies fresh, G_calls_len, G_calls_fn, G_calls_arg
+//@ loop 1 invariant arr(slices) == 0 || fresh(arr(slices))
+//@ loop 1 invariant forall a :: 0 <= a && a < old(alloc) ==> Mem_Val[a] == old(Mem_Val[a])
 
 //@ func (*condition).isEqual
 //@ note comparison internals are decided under C05
-//@ noframe
+//@ tags C11,C09
+//@ requires cwf(r) && cwf(o)
+//@ modifies fresh, G_calls_len, G_calls_fn, G_calls_arg
 
 //@ func (stack).defaultAssertionHandler
 //@ note element rendering is decided under C02; callers outside C02 learn nothing from this call
-//@ noframe
+//@ tags C11,C09
+//@ requires wfs(r)
+//@ modifies fresh, G_calls_len, G_calls_fn, G_calls_arg
 
 //@ func (Condition).Unmarshal
 //@ tags C14
@@ -1193,7 +1206,7 @@ package stackage
 //@ let c0 := G_calls_len
 //@ ensures[C14:Cond.Unmarshal.policy] r != nil && um != nil ==> slice == dyn_Slice_0(um, nil, c0) && err == dyn_Val_1(um, nil, c0)
 //@ ensures[C17:Cond.Unmarshal.nil] r == nil ==> len(slice) == 0 && err == nil
-//@ noframe
+//@ modifies fresh, G_calls_len, G_calls_fn, G_calls_arg
 
 //@ func (Condition).IsEqual
 //@ tags C14
@@ -1201,9 +1214,9 @@ package stackage
 //@ requires r == nil || cwf(r)
 //@ let eq := F_nodeConfig_eqf[F_condition_cfg[r]]
 //@ let c0 := G_calls_len
-//@ ensures[C14:Cond.IsEqual.policy] r != nil && isCondLike(o) && eq != nil ==> err == dyn_Val_0(eq, v_Cond(r), c0)
+//@ ensures[C14:Cond.IsEqual.policy] r != nil && isCondLike(o) && condOf(o) != nil && eq != nil ==> err == dyn_Val_0(eq, v_Cond(r), c0)
 //@ ensures[C17:Cond.IsEqual.nil] r == nil ==> err == nil
-//@ noframe
+//@ modifies fresh, G_calls_len, G_calls_fn, G_calls_arg
 
 //@ func (Condition).String
 //@ tags C14,C06
@@ -1216,7 +1229,7 @@ package stackage
 //@ let verdict := ite(vp != nil, dyn_Val_0(vp, v_Cond(r), c0), ite(condValid(F_condition_kw[r], F_condition_op[r], F_condition_ex[r]), nil, v_err(1)))
 //@ ensures[C06,C17:Cond.String.invalid] r == nil || verdict != nil ==> s == ""
 //@ ensures[C14:Cond.String.policy] r != nil && verdict == nil && rp != nil ==> exists b: Val :: s == dyn_Str_0(rp, b, ite(vp != nil, c0 + 1, c0))
-//@ noframe
+//@ modifies fresh, G_calls_len, G_calls_fn, G_calls_arg
 
 //@ func marshalDefault
 //@ note decoding is decided under C04/C16; callers outside those learn nothing from this call
@@ -1273,3 +1286,48 @@ package stackage
 //@ ensures[C15:Transfer.refused] !go ==> !ok && (d != nil ==> hdr(d) == old(hdr(d)) && Mem_Val[arr(hdr(d))] == old(Mem_Val[arr(hdr(d))]))
 //@ ensures[C15:Transfer.src] r != nil ==> hdr(r) == old(hdr(r)) && Mem_Val[arr(hdr(r))] == old(Mem_Val[arr(hdr(r))]) && cfgOf(r) == old(cfgOf(r))
 //@ modifies Cell_stack[d], Mem_Val[old(arr(hdr(d)))], Mem_Val[fresh], F_nodeConfig_ldr[cfgOf(d)], F_nodeConfig_err[cfgOf(d)], G_held, G_calls_len, G_calls_fn, G_calls_arg
+
+// comparison internals (frame only here; functional contracts under C05)
+
+//@ func valuesEqual
+//@ tags C11,C09
+//@ modifies fresh, G_calls_len, G_calls_fn, G_calls_arg
+
+//@ func slicesEqual
+//@ tags C11,C09
+//@ modifies fresh, G_calls_len, G_calls_fn, G_calls_arg
+
+//@ func mapsEqual
+//@ tags C11,C09
+//@ modifies fresh, G_calls_len, G_calls_fn, G_calls_arg
+
+//@ func structsEqual
+//@ tags C11,C09
+//@ modifies fresh, G_calls_len, G_calls_fn, G_calls_arg
+
+//@ func stackageStructsEqual
+//@ tags C11,C09
+//@ modifies fresh, G_calls_len, G_calls_fn, G_calls_arg
+
+//@ func (condition).unmarshalDefault
+//@ tags C11,C09
+//@ modifies fresh, G_calls_len, G_calls_fn, G_calls_arg
+
+//@ func (condition).string
+//@ tags C11,C09
+//@ let rp := F_nodeConfig_rpf[r.cfg]
+//@ let c0 := G_calls_len
+//@ ensures[C14:cond.string.policy] rp != nil ==> exists b: Val :: result == dyn_Str_0(rp, b, c0)
+//@ modifies fresh, G_calls_len, G_calls_fn, G_calls_arg
+
+// rendering internals (frame only here; functional contracts under C02)
+
+//@ func condenseWHSP
+//@ tags C11,C09
+//@ modifies fresh
+//@ loop 1 invariant 0 <= i && i <= len(b)
+
+//@ func (stack).assembleStringStack
+//@ tags C11,C09
+//@ requires wfs(r) && okslice(str, alloc)
+//@ modifies fresh
